@@ -296,7 +296,41 @@ func genRewind(r *hx.Rand) *hx.Case {
 	return mkCase("c13", "rewind", ops)
 }
 
-func genSched(r *hx.Rand, length int) *hx.Case {
+func genSched(r *hx.Rand, length int) *hx.Case { return genSchedFor("c13", r, length) }
+
+// genOverlap: writes stall, several publications complete meanwhile, the stalled ones return late
+func genOverlap(r *hx.Rand) *hx.Case {
+	ops := []any{op13{K: "base", ID: uint64(r.Intn(3) * r.Range(1, 50))}}
+	if r.Bool() {
+		ops = append(ops, op13{K: "pub", N: 1}, op13{K: "w"})
+	}
+	for g := r.Range(1, 3); g > 0; g-- {
+		k := r.Range(2, 4)
+		for i := 0; i < k; i++ {
+			ops = append(ops, op13{K: "pub", N: r.Intn(3)})
+		}
+		for i := k; i > 0; i-- {
+			idx := r.Intn(i)
+			if r.Chance(2, 3) {
+				idx = i - 1 // newest first: the older writes return late
+			}
+			ops = append(ops, op13{K: "w", I: idx})
+			if r.Chance(1, 3) {
+				ops = append(ops, op13{K: "r", I: r.Intn(2)})
+			}
+			if r.Chance(1, 4) {
+				ops = append(ops, op13{K: "t"})
+			}
+		}
+		if r.Chance(1, 3) {
+			ops = append(ops, op13{K: "crash"})
+		}
+	}
+	ops = append(ops, op13{K: "crash"})
+	return mkCase("c12", "overlap", ops)
+}
+
+func genSchedFor(mode string, r *hx.Rand, length int) *hx.Case {
 	var ops []any
 	base := uint64(0)
 	if r.Chance(2, 3) {
@@ -335,7 +369,7 @@ func genSched(r *hx.Rand, length int) *hx.Case {
 		}
 	}
 	ops = append(ops, op13{K: "crash"})
-	return mkCase("c13", "sched", ops)
+	return mkCase(mode, "sched", ops)
 }
 
 func (eng) Generate(mode, tier string, r *hx.Rand) []*hx.Case {
@@ -360,6 +394,13 @@ func (eng) Generate(mode, tier string, r *hx.Rand) []*hx.Case {
 		}
 		for i := 0; i < ng; i++ {
 			cs = append(cs, genGenerations(r))
+		}
+		nov := 100
+		if thorough {
+			nov = 800
+		}
+		for i := 0; i < nov; i++ {
+			cs = append(cs, genOverlap(r))
 		}
 	case "c13":
 		for _, id := range interestingIDs(r) {
@@ -397,6 +438,23 @@ func (eng) Generate(mode, tier string, r *hx.Rand) []*hx.Case {
 		}
 		for i := 0; i < nret; i++ {
 			cs = append(cs, genRetain(r))
+		}
+		for i := 0; i < 25; i++ {
+			own, sib := genLoad(r), genLoad(r)
+			var a, b op13
+			json.Unmarshal(own.Ops[0], &a)
+			json.Unmarshal(sib.Ops[0], &b)
+			if r.Chance(1, 5) {
+				a.IDs = nil
+			}
+			cs = append(cs, mkCase("c13", "loads3", []any{op13{K: "loads3", IDs: a.IDs, Sib: b.IDs}}))
+		}
+		njs := 40
+		if thorough {
+			njs = 300
+		}
+		for i := 0; i < njs; i++ {
+			cs = append(cs, genJobStart(r))
 		}
 	}
 	return cs
